@@ -356,6 +356,27 @@ def gen_cases(rng, tier, ctx):
         for mn, mx in ([(1, 4), (2, 3), (2, 5), (3, 6)] if tier == 'quick' else
                        [(1, 4), (2, 3), (2, 5), (3, 4), (3, 6), (3, 16), (4, 8), (1, 2), (2, 2)]):
             cases.append(clean_case(t, mn, mx))
+    # de-duplication bookkeeping (clean inputs): a waveform / table that re-occurs after a different one was registered
+    L0, L1 = [1, False, 0, []], [1, False, 1, []]
+    T01, T10 = [2, False, None, [L0, L1]], [2, False, None, [L1, L0]]
+    for t, lims in [([1, False, None, [L0, L1, L0]], [(1, 8)]),
+                    ([1, False, None, [L0, L1, L1, L0]], [(1, 8)]),
+                    ([1, False, None, [L1, L0, [3, False, 1, []], L0, L0]], [(1, 8)]),
+                    ([3, False, None, [L0, L1, L0]], [(1, 8), (2, 3)]),
+                    ([1, False, None, [T01, T10, T01]], [(2, 4)]),
+                    ([1, False, None, [T01, T10, T10, T01, [2, False, None, [L0, L1, L0]]]], [(2, 4)])]:
+        for mn, mx in lims:
+            cases.append(clean_case(t, mn, mx))
+            cases.append(clean_case(t, mn, mx, 'single' if t[0] == 1 and not t[3][0][3] else 'advanced'))
+    # two waveforms of different equality classes with the same uploaded binary (they differ on an odd sample of a
+    # marker-only channel, which the half-rate marker never sees): segments.setdefault maps both to one segment
+    twin = clean_case([1, False, None, [L0, L1, L0, L1]], 1, 8)
+    twin['defined'] = ['A', 'M']
+    twin['cfg'].update({'markers': ['M', None]})
+    for d, cut in zip(twin['wfs'], (2, 1)):
+        d['len'] = '192'
+        d['chans'] = {'A': [[0, '1/4'], ['192', '1/4', 'hold']], 'M': [[0, '1'], [cut, '0', 'hold'], ['192', '0', 'hold']]}
+    cases.append(twin)
     for t in targeted:
         for mn, mx in [(1, 2), (2, 3), (3, 4), (3, 6), (2, 2), (3, 16), (4, 5), (2, 4), (3, 5), (4, 8)]:
             if tier == 'quick' and rng.random() < 0.35:
